@@ -27,6 +27,7 @@ type Obligation struct {
 	Model    string
 	QueryLen int
 	Bounded  bool
+	relaxed  bool // cover check re-run without quantified facts
 }
 
 type InputSym struct {
@@ -75,9 +76,55 @@ func (c *Ctx) define(hint string, t *Term) *Term {
 	}
 	c.symN++
 	name := smtSym(fmt.Sprintf("%s!%d", hint, c.symN))
-	c.decls = append(c.decls, fmt.Sprintf("(define-fun %s () %s %s)", name, t.Sort, t.String()))
+	// declare + assert instead of define-fun: solvers expand define-fun macros inside quantifier
+	// patterns, and an expanded ite/and/not makes the pattern illegal
+	c.decls = append(c.decls, fmt.Sprintf("(declare-const %s %s)\n(assert (= %s %s))", name, t.Sort, name, t.String()))
 	s := Sym(name, t.Sort, c.symN)
 	return s
+}
+
+// skolemize replaces positively occurring universal quantifiers of a goal by fresh constants.
+func (c *Ctx) skolemize(t *Term) *Term {
+	switch {
+	case t.Binder == "forall":
+		m := map[string]*Term{}
+		// binder list text: ((name sort)(name sort))
+		for _, bv := range parseBinders(t.Op) {
+			m[bv.Op] = c.fresh("sk_"+strings.TrimSuffix(bv.Op, "_q"), bv.Sort)
+		}
+		return c.skolemize(subst(t.Args[0], m))
+	case t.Binder != "":
+		return t
+	case t.Op == "and" && len(t.Args) > 0:
+		args := make([]*Term, len(t.Args))
+		for i, a := range t.Args {
+			args[i] = c.skolemize(a)
+		}
+		return And(args...)
+	case t.Op == "=>" && len(t.Args) == 2:
+		return Implies(t.Args[0], c.skolemize(t.Args[1]))
+	}
+	return t
+}
+
+func parseBinders(s string) []*Term {
+	// "((a S)(b (_ BitVec 64)))"
+	var out []*Term
+	s = strings.TrimSpace(s)
+	s = s[1 : len(s)-1]
+	i := 0
+	for i < len(s) {
+		if s[i] != '(' {
+			i++
+			continue
+		}
+		j := matchParen(s, i)
+		inner := s[i+1 : j]
+		sp := strings.IndexByte(inner, ' ')
+		out = append(out, BoundVar(inner[:sp], Sort(inner[sp+1:])))
+		i = j + 1
+	}
+	return out
 }
 
 func (c *Ctx) defineValue(hint string, v Value) Value {
@@ -140,6 +187,7 @@ func (c *Ctx) oblige(kind string, pc, goal *Term, pos token.Position, detail str
 	if c.dry > 0 {
 		return nil
 	}
+	goal = c.skolemize(goal)
 	if goal.isTrue() || pc.isFalse() {
 		// trivially discharged: still count it, with result recorded at once
 		c.counters[kind]++
@@ -273,6 +321,9 @@ func (c *Ctx) queryBody(o *Obligation) string {
 		sb.WriteString("\n")
 	}
 	for _, f := range c.facts[:o.nFacts] {
+		if o.relaxed && containsQuant(f) {
+			continue
+		}
 		sb.WriteString("(assert ")
 		sb.WriteString(f.String())
 		sb.WriteString(")\n")
